@@ -151,7 +151,21 @@ def gen_case(rng):
             'preexisting': rng.random() < 0.25, 'preserve_times': rng.random() < 0.3,
             'old_bystanders': rng.random() < 0.3,
             # another generated test (test_cmd.py with its reference directory ref/cmd) is already there
-            'prior_test': rng.random() < 0.25, 'echo_tmpdir': rng.choice([False] * 7 + [True, 'bare']), 'empty_glob': rng.random() < 0.1}
+            'prior_test': rng.random() < 0.25, 'echo_tmpdir': rng.choice([False] * 7 + [True, 'bare']), 'empty_glob': rng.random() < 0.1,
+            'wizard': rng.choice([None] * 5 + ['tmpdir', 'no-tmpdir', 'no-tmpdir'])}
+
+
+def wizard_of(case):
+    """'tmpdir' / 'no-tmpdir' when the case goes through gentest's question-and-answer interface (only requests it can
+    express: one-line commands, no option without a question, no output under $TMPDIR when that is not to be watched)"""
+    w = case.get('wizard')
+    if not w or case.get('cmd_style') != 'cat' or '\n' in case.get('script', ''):
+        return None
+    if any(f not in ('--no-stdout', '--no-stderr', '--non-zero-exit') for f in case['flags']):
+        return None
+    if any(fl['how'] == 'tmp' for fl in case['files']) or case.get('echo_tmpdir'):
+        return None
+    return w
 
 
 def echoes_tmpdir(case):
@@ -310,8 +324,17 @@ def run_gentest(case, d, timeout=120):
     env = dict(os.environ, PYTHONPATH=core.REPO, PYTHONIOENCODING='utf-8')
     env.pop('TMPDIR', None)
     argv = [PY, '-m', 'tdda.referencetest.gentest'] + case['flags'] + ['-n', str(case['iterations']), command, raw] + refs
+    stdin = None
+    if wizard_of(case):
+        # the same request through the question-and-answer interface (no arguments): command, script, files under the
+        # working directory (no), files under $TMPDIR (as the case says), the other files, the three checks, overwrite, runs
+        yn = lambda b: 'y' if b else 'n'
+        stdin = '\n'.join([command, raw, 'n', yn(wizard_of(case) == 'tmpdir')] + refs +
+                          ['', yn('--no-stdout' not in case['flags']), yn('--no-stderr' not in case['flags']),
+                           yn('--non-zero-exit' not in case['flags']), 'y', str(case['iterations'])]) + '\n'
+        argv = [PY, '-m', 'tdda.referencetest.gentest']
     try:
-        p = subprocess.run(argv, cwd=d, capture_output=True, text=True, env=env, timeout=timeout)
+        p = subprocess.run(argv, cwd=d, capture_output=True, text=True, env=env, timeout=timeout, input=stdin)
         rc, out, err = p.returncode, p.stdout, p.stderr
     except subprocess.TimeoutExpired:
         rc, out, err = 'timeout', '', ''
